@@ -288,6 +288,8 @@ C12Times == <<TimePool[5], TimePool[1], TimePool[2], TimePool[3], TimePool[4], T
 C12Leads == <<LeadPool[1], LeadPool[3], LeadPool[5]>>
 In12(mo, mf) == [ts |-> C12Times, ls |-> C12Leads, ss |-> <<LocPool[2], LocPool[1], LocPool[4]>>, hasObs |-> TRUE, mo |-> mo, mf |-> mf, bump |-> 0]
 UC12(u) == {[inp |-> <<In222(a, {}), In222({}, d)>>, clim |-> NoClimGen, opt |-> NoOptions] : a \in {{}, {p \in P222 : p[1] = 1}}, d \in {{}, {<<1, 2, 1>>}}}
+      \* runs at 00:00 and 00:30: two times of day
+      \cup {[inp |-> <<[In222({}, {}) EXCEPT !.ts = <<TimePool[1], TimePool[12]>>], [In222({}, {<<1, 2, 1>>}) EXCEPT !.ts = <<TimePool[12], TimePool[1]>>]>>, clim |-> NoClimGen, opt |-> NoOptions]}
       \cup {[inp |-> <<In12(a, {}), In12({}, d)>>, clim |-> NoClimGen, opt |-> NoOptions] : a \in {{}, {<<2, 1, 1>>, <<2, 2, 1>>, <<2, 3, 1>>}}, d \in {{<<5, 1, 2>>}}}
 \* station ids of five digits (more significant digits than the scores are printed with)
 UC12Ids(u) == {[inp |-> <<[In222({}, {}) EXCEPT !.ss = <<LocPool[7], LocPool[8]>>], [In222({}, {<<1, 2, 2>>}) EXCEPT !.ss = <<LocPool[8], LocPool[7]>>]>>,
